@@ -132,6 +132,7 @@ _inp("C11", "exhaustive enumeration of tie-heavy worlds x segment layouts x sort
 
 # Families added after the seeded-change waves (DESIGN.md §10); appended to the level text.
 EXTRA = {
+  "C03": " Second level (same command): the same BFS on a real filesystem index with every state-changing system call of every operation (open for writing, write, pwrite, ftruncate, fsync, rename, unlink, ... interposed at the libc boundary) failing with EIO before the call or after its effect; same single-fault oracle. Its counts are under coverage.libc_level.",
   "C07": " Also: bool trees with nested bool under must / should crossed with minimum_should_match.",
   "C08": " Also: sparse nested objects (a later object omits a nullable property an earlier one has) next to dense documents in the same segment.",
   "C10": " Also a large-tie sweep: 24-64 documents in 1-3 tie classes x 17 sort plans x 8 query / execution combinations; every page must be a prefix of the covering response.",
